@@ -41,12 +41,86 @@ def _is_2a5b(x):
         while d % p == 0: d //= p
     return d == 1
 
+def _repr28(x):
+    """x is exactly representable as a rust_decimal value (96-bit mantissa, scale <= 28)"""
+    x = F(x)
+    if not _is_2a5b(x): return False
+    d = x.denominator; sc = 0
+    while d != 1:
+        sc += 1; d = (x * 10 ** sc).denominator
+        if sc > 28: return False
+    return abs(x.numerator * 10 ** sc // x.denominator) < 2 ** 96
+
+def residue_site(lines, window=30):
+    """Replays, in exact rationals, the share-count arithmetic of the pinned matcher (pool and holding rescaling at the
+    end of a day, the look-ahead's cumulative ratio, availability / ratio, matched * ratio) and returns a description
+    of the first operation whose exact result rust_decimal cannot represent - the place where a 28-digit residue
+    enters - or None when every such operation is exact (then the code's share counts are the exact ones)."""
+    for t in sorted({l.tick.upper() for l in lines}):
+        ls = [l for l in _sorted(lines) if l.tick.upper() == t and l.kind in ("BUY", "SELL", "SPLIT", "UNSPLIT")]
+        dates = sorted({l.date for l in ls})
+        day = {d: [l for l in ls if l.date == d] for d in dates}
+        B = {d: sum((F(l.a) for l in day[d] if l.kind == "BUY"), F(0)) for d in dates}
+        S = {d: sum((F(l.a) for l in day[d] if l.kind == "SELL"), F(0)) for d in dates}
+        hasbuy = {d: any(l.kind == "BUY" for l in day[d]) for d in dates}
+        hassell = {d: any(l.kind == "SELL" for l in day[d]) for d in dates}
+        def step(val, l, what):
+            r = F(l.a)
+            if l.kind == "SPLIT": nv = val * r
+            elif r != 0: nv = val / r
+            else: nv = val
+            if not _repr28(nv): return nv, "%s %s: %s %s %s by %s is not a 28-digit decimal" % (t, l.date, what, l.kind, val, r)
+            return nv, None
+        pool = F(0); pos = F(0); claims = defaultdict(F)
+        for i, d in enumerate(dates):
+            resv = claims[d] if hasbuy[d] else F(0)
+            if hasbuy[d] and B[d] < resv: break
+            avail = B[d] - resv if hasbuy[d] else F(0)
+            pos1 = pos + B[d]
+            if hassell[d]:
+                if pos1 < S[d] or avail + pool < S[d]: break
+                m = min(S[d], avail) if (avail > 0 and S[d] > 0) else F(0)
+                rem = S[d] - m; avail -= m
+                if S[d] != 0:
+                    R = F(1)
+                    for l in day[d]:
+                        if l.kind in ("SPLIT", "UNSPLIT"):
+                            R, bad = step(R, l, "look-ahead ratio")
+                            if bad: return bad
+                    for e in dates[i + 1:]:
+                        if rem <= 0 or (e - d).days > window: break
+                        pend = F(1)
+                        for l in day[e]:     # file order within the day; buys of a day were folded into one lot
+                            if l.kind in ("SPLIT", "UNSPLIT"):
+                                pend, bad = step(pend, l, "look-ahead day ratio")
+                                if bad: return bad
+                        if hasbuy[e]:
+                            free = max(F(0), B[e] - min(B[e], max(F(0), S[e])) - claims[e])
+                            if free > 0:
+                                q = free / R if R != 0 else F(0)
+                                if not _repr28(q): return "%s sale %s against %s: available %s / ratio %s is not a 28-digit decimal" % (t, d, e, free, R)
+                                ms = min(rem, q); mb = ms * R
+                                if not _repr28(mb): return "%s sale %s against %s: matched %s x ratio %s is not a 28-digit decimal" % (t, d, e, ms, R)
+                                claims[e] += mb; rem -= ms
+                        R = R * pend
+                        if not _repr28(R): return "%s sale %s: cumulative ratio %s is not a 28-digit decimal" % (t, d, R)
+                if rem > 0:
+                    if rem > pool: break
+                    pool -= rem
+            if hasbuy[d] and avail > 0: pool += avail
+            pos = pos1 - (S[d] if hassell[d] else F(0))
+            for l in day[d]:
+                if l.kind in ("SPLIT", "UNSPLIT"):
+                    pool, bad = step(pool, l, "pool")
+                    if bad: return bad
+                    pos, bad = step(pos, l, "holding")
+                    if bad: return bad
+    return None
+
 def kf_inexact_ratio_chain(lines):
-    """Some split/unsplit ratio (or its inverse for UNSPLIT) is not a terminating decimal."""
-    for l in lines:
-        if l.kind == "UNSPLIT" and F(l.a) != 0 and not _is_2a5b(1 / F(l.a)): return True
-        if l.kind == "SPLIT" and F(l.a) != 0 and not _is_2a5b(1 / F(l.a)): return True   # look-ahead divides by the ratio
-    return False
+    """Some share-count operation of the pinned matcher has an exact result that is not a 28-digit decimal
+    (see residue_site): only then can a Decimal residue explain a difference."""
+    return residue_site(lines) is not None
 
 def has_events(lines):
     return any(l.kind in ("CAPRETURN", "ACCUMULATION") for l in lines)
